@@ -2,6 +2,7 @@ import Percival.Proofs.EArrayStep
 import Percival.Proofs.EQueue
 import Percival.Proofs.SeqMap
 import Percival.Proofs.MPool
+import Percival.Proofs.DsStep
 /-!
 # C12 — elastic array/queue, sequential pointer map and object pool refine their abstract models
 
@@ -208,5 +209,185 @@ theorem mp_exit_frees_cached (p : MPool.MP) (m : Mem) (u : List Nat) (base : Int
   MPool.atexit_spec p m u base h
 
 example : (MPool.atexit ⟨[3, 1], 2, 4, 5, 2, true, true⟩ { Mem.grantAll with live := 3 }).2.live = 0 := by decide
+
+/-! ## The executable: `Model.DsStep.stepOp` (what `pmodel ds` runs) is the step functions above
+
+`Driver/Ds.lean` only parses a line into a `Spec.DSMon.Op` and prints the typed `Out` of `Model.DsStep.stepOp`.
+The next theorems say that on an existing array / queue / map, and on the pool, `stepOp` *is* `EArray.step` /
+`EQueue.step` / `SeqMap.step` / `MPool.step` applied to that component — so `ea_step_refines` … `mp_run_refines`
+(and C14's container theorems, which are about the same functions) speak about what the executable computes.
+What `stepOp` adds is spelled out by the definitions in `Proofs/DsStep.lean`: `eaOpOf` … `mpOpOf` (the container
+operation a protocol line stands for: the caller's data are `patBytes seed n`), `eaOutOf` … (the printed line, built
+from the step's observable answer and the oracle before/after), `eaHarnessFree` (the harness frees the copy of a
+successful `ea_dup`), `mpInUse` (the harness' list of objects in use). -/
+
+open Percival.Model.DsStep Percival.Spec.DSMon Percival.Proofs.DsStep
+
+/-- **`ea_resize`, `ea_append`, `ea_shrink`, `ea_trunc`, `ea_get`, `ea_set`, `ea_getsize`, `ea_dup` are
+`EArray.step`** on the array component, whenever the step does not report an access outside storage (which
+`ea_step_refines` excludes under `Inv` and the caller's contract). -/
+theorem exec_ea_step (s : DsStep.S) (a : EArray.EA) (hs : s.ea = some a) (op : Op) (e : EaOp)
+    (he : eaOpOf a.size op = some e) (hno : (EArray.step a e s.m).1.st ≠ .oob) :
+    stepOp s op =
+      ({ s with m := eaHarnessFree e (EArray.step a e s.m).1 (EArray.step a e s.m).2.2,
+                ea := some (EArray.step a e s.m).2.1 },
+       eaOutOf (EArray.step a e s.m).1 s.m (EArray.step a e s.m).2.2
+         (eaHarnessFree e (EArray.step a e s.m).1 (EArray.step a e s.m).2.2)) :=
+  ea_stepOp s a hs op e he hno
+
+example : eaOpOf 12 (.eaAppend 2 3 5) = some (.append (patBytes 5 6) 2 ⟨3, by decide⟩) := rfl
+example : (EArray.step ⟨12, 16, List.replicate 16 7⟩ (.append (patBytes 5 6) 2 ⟨3, by decide⟩)
+    ({ ea := some ⟨12, 16, List.replicate 16 7⟩ } : DsStep.S).m).1.st ≠ .oob := by decide
+
+/-- `ea_get` / `ea_set` of a record that is not inside the contents (`EArray.step` says `oob`: the caller broke the
+contract) are answered `skip` and change nothing. -/
+theorem exec_ea_skip (s : DsStep.S) (a : EArray.EA) (hs : s.ea = some a) (pos reclen seed : Nat) (r : RecLen)
+    (hr : mkRecLen reclen = some r) :
+    ((EArray.step a (.get pos r) s.m).1.st = .oob → stepOp s (.eaGet pos reclen) = (s, .word .skip)) ∧
+    ((EArray.step a (.set pos r (patBytes seed r.val)) s.m).1.st = .oob →
+      stepOp s (.eaSet pos reclen seed) = (s, .word .skip)) :=
+  ea_stepOp_skip s a hs pos reclen seed r hr
+
+example : (EArray.step ⟨4, 4, [1, 2, 3, 4]⟩ (.get 2 ⟨2, by decide⟩) Mem.grantAll).1.st = .oob := by decide
+
+/-- **`eq_add`, `eq_del`, `eq_len`, `eq_get`, `eq_set` are `EQueue.step`** on the queue component. -/
+theorem exec_eq_step (s : DsStep.S) (q : EQueue.EQ) (hs : s.eq = some q) (op : Op) (e : EqOp)
+    (he : eqOpOf q.reclen.val op = some e) (hno : (EQueue.step q e s.m).1.st ≠ .oob) :
+    stepOp s op =
+      ({ s with m := (EQueue.step q e s.m).2.2, eq := some (EQueue.step q e s.m).2.1 },
+       eqOutOf e (EQueue.step q e s.m).1 (EQueue.step q e s.m).2.1 s.m (EQueue.step q e s.m).2.2) :=
+  eq_stepOp s q hs op e he hno
+
+example : eqOpOf 2 (.eqSet 0 9) = some (.set 0 (patBytes 9 2)) := rfl
+example : (EQueue.step ⟨⟨4, 4, [1, 2, 3, 4]⟩, 1, 1, ⟨2, by decide⟩⟩ (.set 0 (patBytes 9 2)) Mem.grantAll).1.st ≠ .oob := by
+  decide
+
+/-- where `EQueue.step` says `oob`: `eq_set` beyond the end is answered `skip`, any other such access `oob` (never
+reached under `QInv`: `eq_step_refines`); nothing changes. -/
+theorem exec_eq_oob (s : DsStep.S) (q : EQueue.EQ) (hs : s.eq = some q) (pos seed : Nat) :
+    ((EQueue.step q (.get pos) s.m).1.st = .oob → stepOp s (.eqGet pos) = (s, .word .oob)) ∧
+    ((EQueue.step q (.set pos (patBytes seed q.reclen.val)) s.m).1.st = .oob →
+      stepOp s (.eqSet pos seed) = (s, .word (if pos ≥ q.len then .skip else .oob))) :=
+  eq_stepOp_oob s q hs pos seed
+
+example : (EQueue.step ⟨⟨4, 4, [1, 2, 3, 4]⟩, 1, 1, ⟨2, by decide⟩⟩ (.set 5 (patBytes 9 2)) Mem.grantAll).1.st = .oob := by
+  decide
+
+/-- **`sm_add`, `sm_get`, `sm_del`, `sm_min` are `SeqMap.step`** on the map component. -/
+theorem exec_sm_step (s : DsStep.S) (x : SeqMap.SM) (hs : s.sm = some x) (op : Op) (e : SmOp)
+    (he : smOpOf op = some e) (hno : (SeqMap.step x e s.m).1.st ≠ .oob) :
+    stepOp s op =
+      ({ s with m := (SeqMap.step x e s.m).2.2, sm := some (SeqMap.step x e s.m).2.1 },
+       smOutOf e (SeqMap.step x e s.m).1 (SeqMap.step x e s.m).2.1 s.m (SeqMap.step x e s.m).2.2) :=
+  sm_stepOp s x hs op e he hno
+
+example : smOpOf (.smDel (-3)) = some (.delete (-3)) := rfl
+example : (match SeqMap.init Mem.grantAll with
+    | (some x, m) => decide ((SeqMap.step x (.add 5) m).1.st ≠ .oob)
+    | (none, _) => false) = true := by decide +kernel
+
+/-- where `SeqMap.step` says `oob` on `add` / `get` — an `assert` of `seqptrmap_add` fired (2^63 numbers issued) or an
+access left storage (never under `MInv`: `sm_step_refines`) — the protocol answer is the word `assert` / `oob` and
+the protocol state is left alone. -/
+theorem exec_sm_oob (s : DsStep.S) (x : SeqMap.SM) (hs : s.sm = some x) (p : Nat) (i : Int) :
+    ((SeqMap.step x (.add p) s.m).1.st = .oob →
+      stepOp s (.smAdd p) = (s, .word (if (SeqMap.add x p s.m).1 = .assertFail then .assert else .oob))) ∧
+    ((SeqMap.step x (.get i) s.m).1.st = .oob → stepOp s (.smGet i) = (s, .word .oob)) :=
+  sm_stepOp_oob s x hs p i
+
+/-- the `assert` of `seqptrmap_add`: the map has issued the numbers up to `INT64_MAX - 1` -/
+example : (match SeqMap.init Mem.grantAll with
+    | (some x, m) => (SeqMap.step { x with offset := SeqMap.INT64_MAX } (.add 5) m).1.st
+    | (none, _) => .ok) = .oob := by decide +kernel
+
+/-- **`mp_malloc`, `mp_free`, `mp_freenth` are `MPool.step`** (objects of `objSize` bytes) on the pool component;
+`mp_freenth j` frees the in-use object with the `(j mod count)`-th smallest id (`mpOpOf`). -/
+theorem exec_mp_step (s : DsStep.S) (op : Op) (e : MpOp) (he : mpOpOf s.inUse op = some e) :
+    stepOp s op =
+      ({ s with m := (MPool.step objSize s.mp e s.m).2.2, mp := (MPool.step objSize s.mp e s.m).2.1,
+                inUse := mpInUse s.inUse e (MPool.step objSize s.mp e s.m).1 },
+       .mp (rf s.m (MPool.step objSize s.mp e s.m).2.2) (mpObjOf op e (MPool.step objSize s.mp e s.m).1)
+          (mpL2 (MPool.step objSize s.mp e s.m).2.1 s.m (MPool.step objSize s.mp e s.m).2.2)) :=
+  mp_stepOp s op e he
+
+example : mpOpOf [7, 3] (.mpFree 3) = some (.free 3) := rfl
+example : mpOpOf [] .mpMalloc = some .malloc := rfl
+
+/-- `mp_free` of an object the harness does not hold, `mp_freenth` with nothing held: `skip`, nothing changes. -/
+theorem exec_mp_skip (s : DsStep.S) (op : Op) (hop : ∃ x, op = .mpFree x ∨ op = .mpFreenth x)
+    (he : mpOpOf s.inUse op = none) : stepOp s op = (s, .word .skip) :=
+  mp_stepOp_skip s op hop he
+
+example : mpOpOf [7, 3] (.mpFree 4) = none := rfl
+
+
+/-- **Run level.**  Along a sequence of `eq_add` / `eq_del` / `eq_len` / `eq_get` / `eq_set` lines on an existing queue,
+the queue and the oracle in the executable's state are exactly those of `EQueue.run` — the function
+`eq_run_refines` is about — over the projected operations (`eqOpOf`: `eq_add seed` is `add (patBytes seed reclen)` …),
+as long as no step reports an access outside storage (excluded by `eq_run_refines` under `QInv` and the contract).
+(Stated for the queue; the per-line equations `exec_ea_step`, `exec_sm_step`, `exec_mp_step` give the same for the
+other families line by line — for the array the projected operation of `ea_resize` depends on the current size and
+the harness frees the copy of `ea_dup`, so there the projection is computed along the run.) -/
+theorem exec_eq_run (ops : List Op) (s : DsStep.S) (q : EQueue.EQ) (hs : s.eq = some q)
+    (hfam : ∀ op ∈ ops, (eqOpOf q.reclen.val op).isSome)
+    (hno : ∀ x ∈ (EQueue.run q (ops.filterMap (eqOpOf q.reclen.val)) s.m).1, x.2.st ≠ .oob) :
+    (runOps s ops).1.eq = some (EQueue.run q (ops.filterMap (eqOpOf q.reclen.val)) s.m).2.1 ∧
+    (runOps s ops).1.m = (EQueue.run q (ops.filterMap (eqOpOf q.reclen.val)) s.m).2.2 :=
+  eq_runOps ops s q hs hfam hno
+
+example : ([Op.eqAdd 1, .eqAdd 2, .eqDel, .eqGet 0, .eqSet 0 7, .eqLen].filterMap (eqOpOf 2)) =
+    [.add (patBytes 1 2), .add (patBytes 2 2), .delete, .get 0, .set 0 (patBytes 7 2), .getlen] := rfl
+example : ((EQueue.run ⟨⟨0, 0, []⟩, 0, 0, ⟨2, by decide⟩⟩
+    [.add (patBytes 1 2), .add (patBytes 2 2), .delete, .get 0, .set 0 (patBytes 7 2), .getlen] Mem.grantAll).1.map
+      (·.2.st)) = [.ok, .ok, .ok, .ok, .ok, .ok] := by decide +kernel
+
+/-! ## The monitor (`Spec.DSMon.monStep`, what `pmodel dsmon` runs) accepts the model
+
+`Out.ans` is what the monitor sees of a line of the model (print with `Driver/Ds.render`, cut at ` | `, read with
+`Driver/Dsmon.parseAns`; checked on an output of every shape in `KAT/DsAns.lean`).  `Rel n s ms` relates a model state
+and a monitor state after `n` operations: the oracle grants nothing above 2^22 bytes; each existing container
+satisfies `Inv` / `QInv` / `MInv` with at most 2^22 bytes allocated and the monitor holds exactly `abs` of it; both
+sides hold the same list of pool objects in use; the live blocks are accounted for (`MPool.R` with
+`base` = structure + buffer blocks of the existing containers).  `OpOk`: record lengths positive (the C `assert`s
+it), the queue's record length plus 2^22 fits `size_t`, stored pointers non-NULL and < 2^64. -/
+
+/-- **One line.**  From related states, for an operation within `OpOk`, after fewer than 2^63 - 1 operations: the
+monitor *accepts* the answer the model's `stepOp` gives, and the next states are related.  Admission of the container
+operations is `ea_step_refines` / `eq_step_refines` / `sm_step_refines` / `mp_run_refines`'s step; the outcomes
+`oob` and `assert`, which the monitor would reject, are unreachable here (invariants, resp. fewer than 2^63
+numbers). -/
+theorem monitor_accepts_model (n : Nat) (s : DsStep.S) (ms : Spec.DSMon.S) (h : Rel n s ms) (op : Op) (hok : OpOk op)
+    (hn : (n : Int) < SeqMap.INT64_MAX) :
+    (monStep ms op (stepOp s op).2.ans).2 = none ∧
+    Rel (n + 1) (stepOp s op).1 (monStep ms op (stepOp s op).2.ans).1 :=
+  mon_step h op hok hn
+
+example : Rel 0 {} {} := rel_init
+example : OpOk (.eaInit 3 4 9) := by decide
+/-- the accepted answer is a real one (`ok sz=12 al=12 rf=0`), and a wrong size is rejected -/
+example : (stepOp {} (.eaInit 3 4 9)).2.ans.sz = some 12 ∧ (stepOp {} (.eaInit 3 4 9)).2.ans.head = .ok ∧
+    (monStep {} (.eaInit 3 4 9) { (stepOp {} (.eaInit 3 4 9)).2.ans with sz := some 11 }).2 ≠ none := by
+  decide +kernel
+
+/-- **Every case.**  For every sequence of operations within `OpOk`, shorter than 2^63: running the model from its
+initial state and feeding every answer to the monitor (from its initial state) gives the verdict "accepted" on every
+line — the monitor never raises a false alarm on an implementation that behaves like the proved model. -/
+theorem monitor_accepts_model_run (ops : List Op) (hok : ∀ op ∈ ops, OpOk op)
+    (hlen : (ops.length : Int) ≤ SeqMap.INT64_MAX) :
+    monRun {} (ops.zip ((runOps {} ops).2.map Out.ans)) = List.replicate ops.length none := by
+  have := mon_run ops 0 {} {} rel_init hok (by simpa using hlen)
+  exact this.1
+
+example : ∀ op ∈ demoOps, OpOk op := by decide
+/-- the run is not trivially accepted: the answers are real lines (`ok sz=…`, `skip`, `fail rf=1`, `end live=0 …`),
+all 45 are judged, and the evaluation agrees with the theorem -/
+example : (monRun {} (demoOps.zip ((runOps {} demoOps).2.map Out.ans))).length = 45 ∧
+    monRun {} (demoOps.zip ((runOps {} demoOps).2.map Out.ans)) = List.replicate 45 none ∧
+    ((runOps {} demoOps).2.map fun o => o.ans.head).count .ok = 37 ∧
+    ((runOps {} demoOps).2.map fun o => o.ans.head).count .skip = 5 ∧
+    ((runOps {} demoOps).2.map fun o => o.ans.head).count .fail = 2 ∧
+    ((runOps {} demoOps).2.map fun o => o.ans.live)[44]? = some (some 0) := by
+  decide +kernel
+
 
 end Percival.C12
